@@ -893,14 +893,7 @@ FormatterToXML::accumDefaultEscape(
         {
             if(ch > m_maxCharacter)
             {
-                if( !m_isXML1_1 && XalanUnicode::charLSEP == ch ) 
-                {
-                    throwInvalidCharacterException(ch, getMemoryManager());
-                }
-                else
-                {
-                    writeNumberedEntityReference(ch);
-                }
+                writeNumberedEntityReference(ch);
             }
             else if(ch < SPECIALSSIZE && m_attrCharsMap[ch] == 'S')
             {
@@ -918,17 +911,6 @@ FormatterToXML::accumDefaultEscape(
                     else
                     {
                          throwInvalidCharacterException(ch, getMemoryManager());
-                    }
-                }
-                else if( XalanUnicode::charNEL == ch )
-                {
-                    if(m_isXML1_1)
-                    {
-                        writeNumberedEntityReference(ch);
-                    }
-                    else
-                    {
-                        throwInvalidCharacterException(ch, getMemoryManager());
                     }
                 }
                 else
